@@ -276,3 +276,21 @@ b("C19-b7", "C19", "dulwich/protocol.py",
   "        pos = 0\n        end = len(buf)\n        while end - pos >= 4:\n            size = _parse_pkt_line_length(buf[pos : pos + 4])\n            if size == 0:\n                self.handle_pkt(None)\n                pos += 4\n            elif size < 4:\n                raise GitProtocolError(f\"Invalid pkt-line length: {size:04x}\")\n            elif size <= end:\n                self.handle_pkt(buf[pos + 4 : pos + size])\n                pos += size\n            else:\n                break\n        self._readahead = BytesIO()\n        self._readahead.write(buf[pos:])\n", "R19.2")
 b("C20-b6", "C20", CFG, "        or b\"\\r\" in value\n", "", "R20.5")
 b("C20-b7", "C20", CFG, "            if lower_key(actual) == lower_k:\n                del self._real[i]\n", "            if lower_key(actual) == key:\n                del self._real[i]\n", "R20.6")
+
+# ------------------------------------------------------------------ round 3 additions
+PATCH = "dulwich/patch.py"
+b("C17-b7", "C17", PATCH, "                _replace_symlink(fs_path)\n                with open(fs_path, \"wb\") as f:\n                    f.write(result_content)\n",
+  "                with open(fs_path, \"wb\") as f:\n                    f.write(result_content)\n", "R17.10")
+b("C17-b8", "C17", "dulwich/sparse_patterns.py", "            if not os.path.lexists(full_path):\n", "            if not os.path.exists(full_path):\n", "R17.10")
+b("C17-b9", "C17", PATCH, "    if os.path.islink(fs_path):\n        os.unlink(fs_path)\n", "    if os.path.islink(fs_path) and not os.path.exists(fs_path):\n        pass\n", "R17.10")
+n("C17-n4", "C17", PATCH, "        _replace_symlink(dst_fs_path)\n        with open(dst_fs_path, \"wb\") as f:\n",
+  "        if os.path.islink(dst_fs_path):\n            os.unlink(dst_fs_path)\n        with open(dst_fs_path, \"wb\") as f:\n")
+n("C17-n5", "C17", IDX, "    while i < len(name):\n        c = name[i : i + 1]\n        if c == b\":\":\n            return True\n        if c != b\".\" and c != b\" \":\n            return False\n        i += 1\n    return True\n",
+  "    rest = name[i:].lstrip(b\". \")\n    return not rest or rest.startswith(b\":\")\n")
+n("C19-n5", "C19", "dulwich/protocol.py", "            self._write(data)\n        self._len = 0\n        self._wbuf = BytesIO()\n",
+  "            self._write(data)\n        self._buflen = 0\n        self._wbuf = BytesIO()\n")
+n("C19-n6", "C19", "dulwich/protocol.py", "    split_text = text.rstrip().split(b\" \")\n", "    split_text = text.rstrip(b\" \\r\\n\\t\").split(b\" \")\n")
+b("C19-b7", "C19", "dulwich/protocol.py", "        data = self._wbuf.getvalue()\n        if data:\n            self._write(data)\n        self._len = 0\n",
+  "        data = self._wbuf.getvalue()\n        if self._buflen:\n            self._write(data)\n        self._buflen = 0\n", "R19.10")
+b("C20-b9", "C20", CFG, "    value_array = bytearray(value.strip())\n",
+  "    if b'\"' not in value and b\"#\" not in value and b\";\" not in value:\n        return value.strip().replace(b\"\\\\\\\\\", b\"\\\\\").replace(b\"\\\\n\", b\"\\n\").replace(b\"\\\\t\", b\"\\t\")\n    value_array = bytearray(value.strip())\n", "R20.9")
